@@ -22,6 +22,9 @@ static void ct_declassify_cb(const void *p, size_t len) {
 
 static unsigned char SEC[8][32];   /* secret material, from the file */
 static unsigned char PUBOUT[1024]; static size_t PUBOUT_LEN = 0;
+static unsigned char PUBIN[2048]; static size_t PUBIN_LEN = 0;
+/* public ARGUMENTS of the call under test (part of the comparison key) */
+static void pubin_add(const void *p, size_t n) { if (PUBIN_LEN + n <= sizeof(PUBIN)) { memcpy(PUBIN + PUBIN_LEN, p, n); PUBIN_LEN += n; } }
 static void pub_add(const void *p, size_t n) { if (PUBOUT_LEN + n <= sizeof(PUBOUT)) { memcpy(PUBOUT + PUBOUT_LEN, p, n); PUBOUT_LEN += n; } }
 
 int main(int argc, char **argv) {
@@ -58,22 +61,27 @@ int main(int argc, char **argv) {
     API("anti_exfil_signer_commit") { secp256k1_ecdsa_s2c_opening op; vh_ct_begin(); ret = secp256k1_ecdsa_anti_exfil_signer_commit(ctx, &op, msg, SEC[0], SEC[1]); vh_ct_end(); }
     API("adaptor_encrypt") { unsigned char a[162]; vh_ct_begin(); ret = secp256k1_ecdsa_adaptor_encrypt(ctx, a, SEC[0], &peer, msg, NULL, (var & 2) ? SEC[1] : NULL); vh_ct_end(); pub_add(a, 162); }
     API("adaptor_decrypt") { unsigned char a[162]; secp256k1_ecdsa_signature s; secp256k1_pubkey enc; unsigned char sk[32]; memset(sk, 0x17, 32);
-        if (!secp256k1_ec_pubkey_create(ctx, &enc, SEC[0]) || !secp256k1_ecdsa_adaptor_encrypt(ctx, a, sk, &enc, msg, NULL, NULL)) return 2; DECL_LEN = DECL_N = 0;
+        /* the adaptor signature is a PUBLIC argument: keep it fixed (made for the peer key) and vary only the secret decryption key */
+        enc = peer; if (!secp256k1_ecdsa_adaptor_encrypt(ctx, a, sk, &enc, msg, NULL, NULL)) return 2; DECL_LEN = DECL_N = 0; pubin_add(a, 162);
         vh_ct_begin(); ret = secp256k1_ecdsa_adaptor_decrypt(ctx, &s, SEC[0], a); vh_ct_end(); }
     API("context_randomize") { vh_ct_begin(); ret = secp256k1_context_randomize(ctx, SEC[0]); vh_ct_end(); }
     API("musig_nonce_gen") { secp256k1_musig_secnonce sn; secp256k1_musig_pubnonce pn; unsigned char rnd[32]; memcpy(rnd, SEC[1], 32);
         if (!secp256k1_ec_pubkey_create(ctx, &pk, SEC[0])) return 2; DECL_LEN = DECL_N = 0;
         vh_ct_begin(); ret = secp256k1_musig_nonce_gen(ctx, &sn, &pn, rnd, SEC[0], &pk, msg, NULL, (var & 2) ? SEC[2] : NULL); vh_ct_end(); }
-    API("musig_partial_sign") { secp256k1_musig_secnonce sn; secp256k1_musig_pubnonce pn, pn2; secp256k1_musig_secnonce sn2; unsigned char rnd[32], rnd2[32]; secp256k1_musig_keyagg_cache cache;
+    API("musig_partial_sign") { secp256k1_musig_secnonce sn; secp256k1_musig_pubnonce pn, pn2, pn3; secp256k1_musig_secnonce sn2; unsigned char rnd[32], rnd2[32]; secp256k1_musig_keyagg_cache cache;
         const secp256k1_pubkey *pks[2]; const secp256k1_musig_pubnonce *pns[2]; secp256k1_musig_aggnonce agg; secp256k1_musig_session sess; secp256k1_musig_partial_sig ps; secp256k1_pubkey adaptor;
-        memcpy(rnd, SEC[1], 32); memset(rnd2, 0x44, 32);
+        /* the session is a PUBLIC argument: it is built from fixed public nonces only (partial_sign does not require it to contain the
+         * signer's own nonce), so that runs with different secret nonces have identical public arguments */
+        memcpy(rnd, SEC[1], 32);
         if (!secp256k1_keypair_create(ctx, &kp, SEC[0]) || !secp256k1_keypair_pub(ctx, &pk, &kp)) return 2;
         pks[0] = &pk; pks[1] = &peer; if (!secp256k1_musig_pubkey_agg(ctx, NULL, &cache, pks, (var & 2) ? 2 : 1)) return 2;
         if (!secp256k1_musig_nonce_gen(ctx, &sn, &pn, rnd, SEC[0], &pk, msg, &cache, NULL)) return 2;
-        if (!secp256k1_musig_nonce_gen(ctx, &sn2, &pn2, rnd2, NULL, &peer, msg, NULL, NULL)) return 2;
-        pns[0] = &pn; pns[1] = &pn2; if (!secp256k1_musig_nonce_agg(ctx, &agg, pns, (var & 2) ? 2 : 1)) return 2;
+        memset(rnd2, 0x44, 32); if (!secp256k1_musig_nonce_gen(ctx, &sn2, &pn2, rnd2, NULL, &peer, msg, NULL, NULL)) return 2;
+        memset(rnd2, 0x45, 32); if (!secp256k1_musig_nonce_gen(ctx, &sn2, &pn3, rnd2, NULL, &peer, msg, NULL, NULL)) return 2;
+        pns[0] = &pn2; pns[1] = &pn3; if (!secp256k1_musig_nonce_agg(ctx, &agg, pns, (var & 2) ? 2 : 1)) return 2;
         if (!secp256k1_ec_pubkey_create(ctx, &adaptor, peer_sk)) return 2;
         if (!secp256k1_musig_nonce_process(ctx, &sess, &agg, msg, &cache, (var & 4) ? &adaptor : NULL)) return 2; DECL_LEN = DECL_N = 0;
+        pubin_add(&cache, sizeof(cache)); pubin_add(&sess, sizeof(sess));
         vh_ct_begin(); ret = secp256k1_musig_partial_sign(ctx, &ps, &sn, &kp, &cache, &sess); vh_ct_end(); pub_add(&ps, sizeof(ps)); }
     API("musig_adapt") { unsigned char sig[64], pre[64]; memset(pre, 0x21, 64); pre[32] = 0;
         vh_ct_begin(); ret = secp256k1_musig_adapt(ctx, sig, pre, SEC[0], var & 1); vh_ct_end(); }
@@ -83,6 +91,8 @@ int main(int argc, char **argv) {
     f = fopen(argv[4], "w"); if (!f) return 2;
     fprintf(f, "{\"api\":\"%s\",\"var\":%d,\"ret\":%d,\"declass\":[", api, var, ret);
     { size_t off = 0; for (i = 0; i < DECL_N; i++) { size_t j; fprintf(f, "%s[", i ? "," : ""); for (j = 0; j < DECL_LENS[i]; j++) fprintf(f, "%s%u", j ? "," : "", DECL[off + j]); fprintf(f, "]"); off += DECL_LENS[i]; } }
+    fprintf(f, "],\"pubin\":[");
+    for (i = 0; i < PUBIN_LEN; i++) fprintf(f, "%s%u", i ? "," : "", PUBIN[i]);
     fprintf(f, "],\"pubout\":[");
     for (i = 0; i < PUBOUT_LEN; i++) fprintf(f, "%s%u", i ? "," : "", PUBOUT[i]);
     fprintf(f, "]}\n"); fclose(f);
